@@ -139,6 +139,10 @@ pub mod traits;
 mod io;
 mod join;
 
+#[cfg(all(blake3_team_blake3_verif, feature = "std"))]
+#[doc(hidden)]
+pub mod verif;
+
 use arrayref::{array_mut_ref, array_ref};
 use arrayvec::{ArrayString, ArrayVec};
 use core::cmp;
